@@ -396,7 +396,9 @@ fn c10_model(zone_name: &str, az: f32, tilt: f32, fsh: usize, cons: usize, mult:
     let u_only_entry = fsh == 3;
     let fsh = if fsh == 3 { 1 } else { fsh };
     let pos = if fsh == 1 { Some([20.0, 0.0, 0.0]) } else { None };
-    let w = wall("X", BOUNDS[bounds], uid("wc"), uid("SI"), if bounds == 1 { Some(uid("SO")) } else { None }, geom(tilt, az, pos, rect(4.0, 3.0)));
+    // (a wall towards outside air may still name the space it once separated from: every other azimuth does, naming its own space)
+    let leftover = bounds != 1 && (az.to_bits() >> 3) % 2 == 1;
+    let w = wall("X", BOUNDS[bounds], uid("wc"), uid("SI"), if bounds == 1 { Some(uid("SO")) } else if leftover { Some(uid("SI")) } else { None }, geom(tilt, az, pos, rect(4.0, 3.0)));
     let wid = w.id;
     m.walls.push(w);
     let c = if cons == 0 { uid("winc") } else { uid("missing-wincons") };
@@ -511,7 +513,7 @@ pub fn run10(ctx: &Ctx) -> i32 {
     ctx.sample(json!({"part": "single", "zone": zones[t[0]], "azimuth": azs[t[1]], "tilt": C10_TILTS[t[2]], "f_shobst": t[3], "cons": t[4], "mult": t[5], "bounds": t[6]}));
     ctx.finish(
         "model_checking",
-        &format!("full product zones({}) x 37 azimuths (every orientation-class boundary -0.01/0/+0.01, class centres, negative and >360 equivalents) x tilt{{0,59.99,60,60.01,90,120,180,330,360,390,-30}} x F_sh,obst{{override,computed with a shade,none,computed with a shade + an override entry fixing only U (gains bit-identical to the model without the entry)}} x construction{{ok,missing}} x multiplier{{1,3}} x bounds(4); ordered pairs of 48 window configurations per zone; models without window / without envelope window / zero reference area; shipped models re-zoned; oracle: gains, q, a_wp, area-weighted means and per-orientation breakdown from the statement's formula in f64 with H looked up in MONTHLYRADDATA (dir[6]+dif[6]) by an independent orientation classifier; non-trivial = envelope window area > 0", zones.len()),
+        &format!("full product zones({}) x 37 azimuths (every orientation-class boundary -0.01/0/+0.01, class centres, negative and >360 equivalents) x tilt{{0,59.99,60,60.01,90,120,180,330,360,390,-30}} x F_sh,obst{{override,computed with a shade,none,computed with a shade + an override entry fixing only U (gains bit-identical to the model without the entry)}} x construction{{ok,missing}} x multiplier{{1,3}} x bounds(4) (non-interior walls of every other azimuth carry a left-over adjacent-space reference); ordered pairs of 48 window configurations per zone; models without window / without envelope window / zero reference area; shipped models re-zoned; oracle: gains, q, a_wp, area-weighted means and per-orientation breakdown from the statement's formula in f64 with H looked up in MONTHLYRADDATA (dir[6]+dif[6]) by an independent orientation classifier; non-trivial = envelope window area > 0", zones.len()),
         true,
         json!({"singles": n, "pairs": np}),
     )
@@ -553,7 +555,7 @@ fn scale_model(m: &Model, s: f32) -> Model {
     q
 }
 
-/// generated building for aggregates: per space (kind, inside, mult, floors{1,2}, ceiling{none, own roof, other's floor above})
+/// generated building for aggregates: per space (kind, inside, mult, floors{1,2}, ceiling{none, own roof, other's floor above, own ceiling under the space above})
 fn agg_model(specs: &[usize]) -> Model {
     let mut m = model_with_meta(meta(zone("D3")));
     let wc = std_cons(&mut m);
@@ -562,7 +564,7 @@ fn agg_model(specs: &[usize]) -> Model {
     let kinds = [SpaceType::CONDITIONED, SpaceType::UNCONDITIONED, SpaceType::UNINHABITED];
     let mults = [1.0f32, 2.0, 0.5];
     for (i, sp) in specs.iter().enumerate() {
-        let (k, inside, mu, floors, ceil) = (sp % 3, (sp / 3) % 2, (sp / 6) % 3, (sp / 18) % 2, (sp / 36) % 3);
+        let (k, inside, mu, floors, ceil) = (sp % 3, (sp / 3) % 2, (sp / 6) % 3, (sp / 18) % 2, (sp / 36) % 4);
         let name = format!("s{i}");
         let mut s = space(&name, kinds[k], inside == 0, 3.0 + i as f32 * 0.2);
         s.multiplier = mults[mu];
@@ -587,7 +589,12 @@ fn agg_model(specs: &[usize]) -> Model {
                 u.z = 3.0;
                 let upid = u.id;
                 m.spaces.push(u);
-                m.walls.push(wall(&format!("{up}_F"), BoundaryType::INTERIOR, uid("slab"), upid, Some(sid), geom(180.0, 0.0, Some([x0, 4.0, 3.0]), rect(5.0, 4.0))));
+                if ceil == 2 {
+                    m.walls.push(wall(&format!("{up}_F"), BoundaryType::INTERIOR, uid("slab"), upid, Some(sid), geom(180.0, 0.0, Some([x0, 4.0, 3.0]), rect(5.0, 4.0))));
+                } else {
+                    // the same slab given from below: owned by this space, next to the upper one (which then has no floor of its own)
+                    m.walls.push(wall(&format!("{name}_C"), BoundaryType::INTERIOR, uid("slab"), sid, Some(upid), geom(0.0, 0.0, Some([x0, 0.0, 3.0]), rect(5.0, 4.0))));
+                }
             }
         }
     }
@@ -612,7 +619,7 @@ pub fn run11(ctx: &Ctx) -> i32 {
         }
     }));
     // (b) aggregates
-    let nspec = 108u64;
+    let nspec = 144u64;
     let maxsp = ctx.tier.pick(2, 3);
     let mut total_b = 0;
     for k in 1..=maxsp {
@@ -697,7 +704,7 @@ pub fn run11(ctx: &Ctx) -> i32 {
     ctx.sample(json!({"part": "aggregates", "specs": [17, 93]}));
     ctx.finish(
         "model_checking",
-        &format!("(a) envelope membership + areas/volumes/compactness/ventilation-rate on the 4608 single-element configurations of C08; (b) generated buildings: every combination of 1..{} spaces x (kind 3 x inside 2 x multiplier{{1,2,.5}} x floors{{1,2}} x ceiling{{none, own roof, floor of the space above}}) = 108^k models, every 5th of the multi-space ones also with the walls stored round-robin across spaces and the spaces reversed; (c) every 7th of those re-scaled by s in {{1/4,1/2,2,4}} (areas x s^2, volumes x s^3, compactness x s within the 0.01 rounding quantum); (d) {} f32 angles for Tilt/Orientation classification and the parser-vs-model tilt classes; shipped models; non-trivial = indicators computed", maxsp, swept),
+        &format!("(a) envelope membership + areas/volumes/compactness/ventilation-rate on the 4608 single-element configurations of C08; (b) generated buildings: every combination of 1..{} spaces x (kind 3 x inside 2 x multiplier{{1,2,.5}} x floors{{1,2}} x ceiling{{none, own roof, floor of the space above, own ceiling next to the space above}}) = 144^k models, every 5th of the multi-space ones also with the walls stored round-robin across spaces and the spaces reversed; (c) every 7th of those re-scaled by s in {{1/4,1/2,2,4}} (areas x s^2, volumes x s^3, compactness x s within the 0.01 rounding quantum); (d) {} f32 angles for Tilt/Orientation classification and the parser-vs-model tilt classes; shipped models; non-trivial = indicators computed", maxsp, swept),
         true,
         json!({"configs": n, "aggregate_models": total_b, "angles_swept": swept}),
     )
